@@ -42,8 +42,13 @@ def cases(tier, seed):
             out.append({"key": f"{zoo.cell_name(cell)}-noncomm", "kind": "fine", "cell": cell,
                         "rseed": hash((seed, ci, 77)) % (2 ** 31), "tier": tier, "cost": 10})
         if not (cell["method"] == "euler" and cell["noise_type"] != "additive"):
-            out.append({"key": f"{zoo.cell_name(cell)}-adaptive", "kind": "adaptive", "cell": cell,
-                        "family": fams[0], "rseed": hash((seed, ci, 99)) % (2 ** 31), "tier": tier, "cost": 8})
+            # quick: one linear and (where a closed form exists) one family that is non-linear in y; thorough: all
+            afams = fams if tier == "thorough" else ([fams[0]] + [f for f in fams if f in ("arctan",)][:1])
+            for fname in afams:
+                suffix = "" if fname == fams[0] else f"-{fname}"
+                out.append({"key": f"{zoo.cell_name(cell)}-adaptive{suffix}", "kind": "adaptive", "cell": cell,
+                            "family": fname, "rseed": hash((seed, ci, 99, fams.index(fname))) % (2 ** 31), "tier": tier,
+                            "cost": 8})
     return out
 
 
@@ -150,6 +155,8 @@ def run_adaptive(case):
     gen = torch.Generator().manual_seed(case["rseed"])
     y0 = fam.y0(B, gen)
     levy = zoo.levy_for(cell["method"])
+    if getattr(fam, "needs_U", False) and levy == "none":
+        levy = "space-time"
     base = torchsde.BrownianInterval(t0=t0, t1=t0 + T, size=(B, fam.m), entropy=rng.randrange(1, 10 ** 9),
                                      levy_area_approximation=levy)
     tols = [1e-1, 1e-2, 1e-3, 1e-4, 1e-5]
